@@ -202,3 +202,4 @@ def run(ctx: Ctx) -> None:
     ctx.coverage["rule"] = ("one case per real run (backend, noise kind, n_trajectories, atoms); non-trivial when n_trajectories > 1; "
                             "model: every split of n_trajectories into repetition counts with <= MaxTraj trajectories x <= MaxReps repetitions and per-run values in {0,1}")
     ctx.coverage["exhaustive"] = False
+    ctx.coverage["distinct_violation_keys"] = sorted(set(ctx.violation_keys))
